@@ -22,6 +22,7 @@ def dispatch (op : String) (j : Json) : Json :=
   | "C03.setitem" => C03.setitem j
   | "C04.ufunc" => C04.ufunc j
   | "C05.reduce" => C05.reduce j
+  | "C05.argred" => C05.argred j
   | "C07.scan" => C07.scan j
   | "C08.struct" => C08.struct j
   | "C09.cols" => C09.cols j
